@@ -152,7 +152,12 @@ def check(tier, seed):
         bad, cps, history = oracle(ops, outs)
         bad = bad or refusal_unchanged(ops, outs) or old_roots_readable(t, history)
         if bad:
-            R.spec_violations.append((bad, {"ops": ops}))
+            def still(o):
+                oo, tt = BX.run_history(o)
+                b, c_, h_ = oracle(o, oo)
+                return (b or refusal_unchanged(o, oo) or old_roots_readable(tt, h_)) is not None
+            small = C.shrink_list(ops, still)
+            R.spec_violations.append((bad, {"ops": small}))
         for op, out in zip(ops, outs):
             if op[0] in ("set", "delete", "delete_subtrie"):
                 R.count(op[0] + ("_refused" if isinstance(out, Exc) else ""))
